@@ -12,7 +12,7 @@ trap 'git -C /repo worktree remove --force $wt >/dev/null 2>&1; rm -rf $wt $root
 git -C /repo worktree add --detach $wt HEAD >/dev/null 2>&1 || exit 3
 # carry over uncommitted contract edits (comment-only files)
 (cd /repo && git diff -- '*verif_contracts.go') | (cd $wt && git apply --allow-empty 2>/dev/null)
-git -C $wt apply "$d/patch.diff" || exit 3
+git -C $wt apply "$d/patch.diff" || { echo "PATCH-FAILED $d"; exit 3; }
 mkdir -p $root
 ln -s /verif/props.json $root/props.json
 ln -s /verif/contracts $root/contracts
